@@ -5,8 +5,26 @@ use crate::vm;
 
 /// Parses a keyword from the input stream.
 ///
-/// TeX.2021.407 scan_keyword
+/// TeX.2021.407 scan_keyword: blanks before the keyword are skipped (and, as in TeX,
+/// they are not put back when the keyword does not follow), so `10true pt` and
+/// `1fil l` are read as TeX reads them.
 pub fn parse_keyword<S: TexlangState>(
+    input: &mut vm::ExpandedStream<S>,
+    keyword: &str,
+) -> txl::Result<bool> {
+    if keyword.is_empty() {
+        return Ok(true);
+    }
+    while let Some(token) = input.next()? {
+        if !matches!(token.value(), token::Value::Space(_)) {
+            input.back(token);
+            break;
+        }
+    }
+    parse_keyword_letters(input, keyword)
+}
+
+fn parse_keyword_letters<S: TexlangState>(
     input: &mut vm::ExpandedStream<S>,
     keyword: &str,
 ) -> txl::Result<bool> {
@@ -25,7 +43,7 @@ pub fn parse_keyword<S: TexlangState>(
         return Ok(false);
     }
     // this character matched; now try to match the result of keyword
-    let result = parse_keyword(input, &keyword[c.len_utf8()..]);
+    let result = parse_keyword_letters(input, &keyword[c.len_utf8()..]);
     if let Ok(false) = result {
         // some later character did not match, reverse consuming the token.
         input.back(token);
